@@ -11,7 +11,7 @@ EXTENDS Naturals, Sequences, FiniteSets, TLC
 CONSTANTS MaxKex,        \* key exchanges per connection (2 = one re-key)
           HLen,          \* digest length of the key-exchange hash (20, 32, 48, 64)
           IvLen, KeyLen, MacLen,   \* what the negotiated cipher / MAC need
-          Mutations      \* subset of {"swap", "last", "sid"}: defects a behaviour may start with (see mut)
+          Mutations      \* subset of {"swap", "last", "sid", "oldhash"}: defects a behaviour may start with (see mut)
 
 Roles == {"client", "server"}
 Dirs  == {"out", "in"}
@@ -19,7 +19,10 @@ Peer(r) == IF r = "client" THEN "server" ELSE "client"
 CeilDiv(a, b) == (a + b - 1) \div b
 
 (* ---- RFC 4253 7.2, written as the RFC writes it ---- *)
-Hash(x) == [hash |-> x]
+\* every key exchange negotiates its own kex method and with it its own hash function (sha1 / sha256 / sha384 /
+\* sha512): exchange number k uses HashAlg(k); in the worst case each one differs from the one before
+HashAlg(k) == k
+Hash(a, x) == [hash |-> x, alg |-> a]
 Secret(k) == [secret |-> k]
 ExHash(k) == [exhash |-> k]
 Letter(X) == [letter |-> X]
@@ -28,8 +31,8 @@ Letter(X) == [letter |-> X]
 Dg(k, sd, X, j) == [digest |-> j, of |-> <<k, sd, X>>]
 \* K1 = HASH(K || H || X || session_id);  K(i+1) = HASH(K || H || K1 || ... || Ki)
 RfcBlock(k, sd, X, i) ==
-    IF i = 1 THEN Hash(<<Secret(k), ExHash(k), Letter(X), sd>>)
-    ELSE Hash(<<Secret(k), ExHash(k)>> \o [j \in 1..(i - 1) |-> Dg(k, sd, X, j)])
+    IF i = 1 THEN Hash(HashAlg(k), <<Secret(k), ExHash(k), Letter(X), sd>>)
+    ELSE Hash(HashAlg(k), <<Secret(k), ExHash(k)>> \o [j \in 1..(i - 1) |-> Dg(k, sd, X, j)])
 \* key = first n bytes of K1 || K2 || ...   (hl = digest length)
 RfcKeyH(k, sd, X, n, hl) == [blocks |-> [i \in 1..CeilDiv(n, hl) |-> RfcBlock(k, sd, X, i)], take |-> n]
 RfcKey(k, sd, X, n) == RfcKeyH(k, sd, X, n, HLen)
@@ -41,6 +44,7 @@ VARIABLES mut,     \* "none" = the code as it is; otherwise one seeded defect, f
                    \*   "swap": letters of the two directions exchanged in BOTH roles (symmetric bug)
                    \*   "last": extension hashes only the last digest, not K1 || ... || Ki
                    \*   "sid":  session id overwritten at re-key
+                   \*   "oldhash": the hash function of the FIRST exchange is kept for the key derivation of later ones
           kex,     \* key exchanges completed so far (both sides know K and H of exchange number kex)
           sid,     \* session identifier
           inst     \* inst[role][dir] = keys installed in that Packetizer direction ([kex |-> 0] = none yet)
@@ -48,15 +52,17 @@ vars == <<mut, kex, sid, inst>>
 
 (* ---- what the code does ---- *)
 \* _compute_key: out = sofar = H(K, H, id, sid); while len(out) < nbytes: d = H(K, H, sofar); out += d; sofar += d
+\* hash_algo = getattr(self.kex_engine, "hash_algo", None): the hash of the exchange that has just been run
+CodeAlg(k) == IF mut = "oldhash" THEN HashAlg(1) ELSE HashAlg(k)
 \* blocks = the hash computations done so far, sofar = their digests (the accumulated byte string)
 RECURSIVE Extend(_, _, _, _, _, _, _)
 Extend(k, sd, X, blocks, sofar, n, hl) ==
     IF Len(blocks) * hl >= n THEN blocks
     ELSE Extend(k, sd, X,
-                Append(blocks, Hash(<<Secret(k), ExHash(k)>> \o (IF mut # "last" THEN sofar ELSE <<sofar[Len(sofar)]>>))),
+                Append(blocks, Hash(CodeAlg(k), <<Secret(k), ExHash(k)>> \o (IF mut # "last" THEN sofar ELSE <<sofar[Len(sofar)]>>))),
                 Append(sofar, Dg(k, sd, X, Len(sofar) + 1)), n, hl)
 ComputeKeyH(k, sd, X, n, hl) ==
-    [blocks |-> Extend(k, sd, X, <<Hash(<<Secret(k), ExHash(k), Letter(X), sd>>)>>, <<Dg(k, sd, X, 1)>>, n, hl), take |-> n]
+    [blocks |-> Extend(k, sd, X, <<Hash(CodeAlg(k), <<Secret(k), ExHash(k), Letter(X), sd>>)>>, <<Dg(k, sd, X, 1)>>, n, hl), take |-> n]
 ComputeKey(k, sd, X, n) == ComputeKeyH(k, sd, X, n, HLen)
 \* the hash calls _compute_key makes, in order (what the trace of the real function is compared with)
 HashInputs(k, sd, X, n, hl) == [i \in 1..Len(ComputeKeyH(k, sd, X, n, hl).blocks) |-> ComputeKeyH(k, sd, X, n, hl).blocks[i].hash]
